@@ -39,6 +39,8 @@
 (*   ARGSIG the arguments carry valid placement signatures                  *)
 (*   VIAGAS / VIANEO  the method is reached as the payment callback of a    *)
 (*          native GAS / NEO transfer (sent and witnessed by KEY)           *)
+(*   VIACALLER  the method is called by a helper contract (balance.transfer *)
+(*          accepts the calling contract as the holder)                     *)
 (* Two atoms may denote the same account (ALPHA and CMT when the two        *)
 (* thresholds coincide, n in {1,2,4}); Same() says which.                   *)
 (***************************************************************************)
@@ -61,7 +63,7 @@ AlphaThr(n) == (2 * n) \div 3 + 1
 CmtThr(n)   == n \div 2 + 1
 AlphaIsCmt(n) == AlphaThr(n) = CmtThr(n)      \* same keys, same threshold => same account
 
-Atoms == {"ALPHA", "CMT", "M1", "IRMAJ", "IR1", "KEY", "OWNER", "ADMIN", "X", "ARGSIG", "VIAGAS", "VIANEO"}
+Atoms == {"ALPHA", "CMT", "M1", "IRMAJ", "IR1", "KEY", "OWNER", "ADMIN", "X", "ARGSIG", "VIAGAS", "VIANEO", "VIACALLER"}
 
 \* atoms that denote the same account as a (in the canonical scenario of a method of class cls)
 Same(a, cls, n) ==
@@ -76,7 +78,7 @@ Norm(S, cls, n) == UNION {Same(a, cls, n) : a \in S}
 (***************************************************************************)
 (* Authorisation classes. S is a normalised signer set.                    *)
 (***************************************************************************)
-Classes == {"alphabet", "committee", "alphabet-role-majority", "key+alphabet", "key", "ir-key",
+Classes == {"stored-key", "candidate-or-stored-key", "calling-contract", "alphabet", "committee", "alphabet-role-majority", "key+alphabet", "key", "ir-key",
             "holder-or-caller", "holder-or-alphabet", "nns-owner", "nns-owner+key", "nns-admin", "nns-parent",
             "own-alphabet-node", "candidate-or-alphabet", "signatures-in-arguments",
             "gas-only-callback", "gas-or-neo-callback", "none", "never", "safe"}
@@ -89,6 +91,7 @@ Sufficient(cls, S) ==
     [] cls = "key"                     -> "KEY" \in S
     [] cls = "ir-key"                  -> "KEY" \in S
     [] cls = "holder-or-caller"        -> "KEY" \in S
+    [] cls = "calling-contract"        -> "VIACALLER" \in S
     [] cls = "holder-or-alphabet"      -> "KEY" \in S \/ "ALPHA" \in S
     [] cls = "nns-owner"               -> "OWNER" \in S
     [] cls = "nns-owner+key"           -> "OWNER" \in S /\ "KEY" \in S
@@ -96,6 +99,9 @@ Sufficient(cls, S) ==
     [] cls = "nns-parent"              -> "KEY" \in S /\ ("OWNER" \in S \/ "ADMIN" \in S)
     [] cls = "own-alphabet-node"       -> "KEY" \in S
     [] cls = "candidate-or-alphabet"   -> "KEY" \in S \/ "ALPHA" \in S
+    \* notary-disabled NeoFS contract: every call of a stored Alphabet key is a vote (M1 is stored key 0)
+    [] cls = "stored-key"              -> "M1" \in S
+    [] cls = "candidate-or-stored-key" -> "KEY" \in S \/ "M1" \in S
     [] cls = "signatures-in-arguments" -> "ARGSIG" \in S
     [] cls = "gas-only-callback"       -> "VIAGAS" \in S /\ "KEY" \in S
     [] cls = "gas-or-neo-callback"     -> ("VIAGAS" \in S \/ "VIANEO" \in S) /\ "KEY" \in S
@@ -157,6 +163,8 @@ Methods == {
   Sf("audit", "listByNode", 3), Sf("audit", "version", 0),
   \* ---- balance ----
   Mt("balance", "transfer", 4, "", "holder-or-caller", "false", SN),
+  Mt("balance", "transfer", 4, "via", "calling-contract", "false", SN),   \* from = the helper contract that makes the call
+  Mt("balance", "transfer", 4, "via-victim", "holder-or-caller", "false", SN),  \* a contract moving somebody else's funds
   Mt("balance", "transferX", 4, "", "alphabet", F, SN),   \* see ClassOf: the doc comment also names the owner
   Mt("balance", "lock", 5, "", "alphabet", F, SN),
   Mt("balance", "mint", 3, "", "alphabet", F, SN),
@@ -197,6 +205,13 @@ Methods == {
   Mt("neofs", "onNEP17Payment", 3, "", "gas-only-callback", F, TN),
   Mt("neofs", "setConfig", 3, "", "alphabet", F, SN),
   Mt("neofs", "withdraw", 2, "", "key", F, TN),
+  \* the same contract deployed with notaryDisabled = true: votes of the stored keys are collected (C17);
+  \* eff = what happens when the vote reaches the threshold (n = 1), otherwise only the ballot is stored (EffOf)
+  Mt("neofs", "alphabetUpdate", 2, "votes", "stored-key", F, Nt),
+  Mt("neofs", "cheque", 4, "votes", "stored-key", F, TN),
+  Mt("neofs", "setConfig", 3, "votes", "stored-key", F, SN),
+  Mt("neofs", "innerRingCandidateRemove", 1, "votes", "candidate-or-stored-key", F, St),
+  Mt("neofs", "withdraw", 2, "votes", "key", F, TN),
   Upd("neofs", "alphabet-role-majority"),
   Sf("neofs", "alphabetAddress", 0), Sf("neofs", "alphabetList", 0), Sf("neofs", "config", 1),
   Sf("neofs", "innerRingCandidates", 0), Sf("neofs", "listConfig", 0), Sf("neofs", "version", 0),
@@ -277,8 +292,12 @@ ClassOf(m) ==
   THEN "holder-or-alphabet" ELSE m.cls
 
 \* the class the CODE implements (differs from ClassOf only under a deviation switch)
+\* StrangerVotes: the notary-disabled setConfig tests len(key) instead of len(nodeKey), so a call witnessed by
+\* nobody is counted as a vote (DESIGN.md 5.4 row 4)
 CodeClassOf(m) ==
-  IF m.c = "balance" /\ m.m = "transferX" /\ "TransferXOwnerDenied" \in Dev THEN "alphabet" ELSE ClassOf(m)
+  IF m.c = "balance" /\ m.m = "transferX" /\ "TransferXOwnerDenied" \in Dev THEN "alphabet"
+  ELSE IF m.c = "neofs" /\ m.m = "setConfig" /\ m.v = "votes" /\ "StrangerVotes" \in Dev THEN "none"
+  ELSE ClassOf(m)
 
 (***************************************************************************)
 (* Signer-set descriptors tried per method (the quantifier of C03: nobody   *)
@@ -292,10 +311,11 @@ NNSSets == {{"OWNER"}, {"ADMIN"}, {"OWNER", "KEY"}, {"ADMIN", "KEY"}, {"KEY"}, {
 SigSets == {{"ARGSIG"}, {"ARGSIG", "X"}}
 GasSets == {{"VIAGAS", "KEY"}, {"VIAGAS", "X"}, {"VIAGAS", "ALPHA"}}
 NeoSets == {{"VIANEO", "KEY"}, {"VIANEO", "X"}}
+ViaSets == {{"VIACALLER"}, {"VIACALLER", "X"}, {"VIACALLER", "KEY"}, {"VIACALLER", "CMT"}}
 Everybody == {"ALPHA", "CMT", "M1", "IRMAJ", "IR1", "X"}
 
 UsesKey(cls) == cls \in {"key+alphabet", "key", "ir-key", "holder-or-caller", "holder-or-alphabet",
-                         "own-alphabet-node", "candidate-or-alphabet", "never"}
+                         "own-alphabet-node", "candidate-or-alphabet", "candidate-or-stored-key", "never"}
 UsesNNS(cls) == cls \in {"nns-owner", "nns-owner+key", "nns-admin", "nns-parent"}
 
 SetsFor(m) ==
@@ -306,6 +326,7 @@ SetsFor(m) ==
             \cup (IF cls = "signatures-in-arguments" THEN SigSets ELSE {})
             \cup (IF cls \in {"gas-only-callback", "gas-or-neo-callback"} THEN GasSets \cup {{"KEY"}} ELSE {})
             \cup (IF cls = "gas-or-neo-callback" THEN NeoSets ELSE {})
+            \cup (IF m.v \in {"via", "via-victim"} THEN ViaSets ELSE {})
 VerifySets == {{}, {"X"}, {"M1"}, {"CMT"}, {"ALPHA"}, {"IRMAJ"}, {"M1", "X"}}
 
 -----------------------------------------------------------------------------
@@ -319,6 +340,13 @@ Event(act, m, cls, S, n, res, ret, ntf, valid) ==
 
 Changed(x, y, ch) == y \in WorldSpace /\ ((y # x) <=> ch)
 
+\* effects of the successful canonical call; neofs.alphabetUpdate is given the stored keys in a rotated order
+\* (the multi-signature account must stay the same for the other cells), which changes nothing when there is one key
+EffOf(m, n) ==
+  IF m.c = "neofs" /\ m.m = "alphabetUpdate" /\ m.v = "" /\ n = 1 THEN m.eff \ {"st"}
+  ELSE IF m.v = "votes" /\ m.cls = "stored-key" /\ AlphaThr(n) > 1 THEN {"st"}     \* one vote of several: the ballot
+  ELSE m.eff
+
 \* one invocation of m in a transaction witnessed by S0 on an n-key committee
 Invoke(m, S0, n) ==
   LET cls  == ClassOf(m)
@@ -329,12 +357,15 @@ Invoke(m, S0, n) ==
            /\ world' = world /\ tok' = tok
            /\ \E ret \in {"true", "false", "other"} : ev' = Event("invoke", m, cls, S, n, "HALT", ret, FALSE, TRUE)
       ELSE IF ~Sufficient(code, S)
-      THEN /\ world' = world /\ tok' = tok
-           /\ ev' = Event("invoke", m, cls, S, n, IF m.ref = "false" THEN "HALT" ELSE "FAULT",
-                          IF m.ref = "false" THEN "false" ELSE "other", FALSE, TRUE)
-      ELSE /\ Changed(world, world', "st" \in m.eff)
-           /\ Changed(tok, tok', "tok" \in m.eff)
-           /\ \E ret \in {"true", "other"} : ev' = Event("invoke", m, cls, S, n, "HALT", ret, "ntf" \in m.eff, TRUE)
+      THEN \* a refusing method faults (or returns false: NEP-17/NEP-11 transfer); a native token contract
+           \* refuses a transfer that the sender did not witness by returning false
+           LET soft == m.ref = "false" \/ S0 \cap {"VIAGAS", "VIANEO"} # {} IN
+           /\ world' = world /\ tok' = tok
+           /\ ev' = Event("invoke", m, cls, S, n, IF soft THEN "HALT" ELSE "FAULT",
+                          IF soft THEN "false" ELSE "other", FALSE, TRUE)
+      ELSE /\ Changed(world, world', "st" \in EffOf(m, n))
+           /\ Changed(tok, tok', "tok" \in EffOf(m, n))
+           /\ \E ret \in {"true", "other"} : ev' = Event("invoke", m, cls, S, n, "HALT", ret, "ntf" \in EffOf(m, n), TRUE)
 
 \* verify() used as the witness of the contract's own account in a transaction signed by S0:
 \* the transaction is valid iff verify returns true; nothing is executed for an invalid one
